@@ -113,7 +113,10 @@ def run(run, tier, loadcfg):
     run.assumptions = ['the ring buffer is a FIFO queue of capacity >= the lead (C06)', 'RefCell / Rc behave as documented']
     cfgs = ['std-debug'] + (['nostd'] if tier == 'thorough' else [])
     for cfg in cfgs:
-        cx = Ctx(loadcfg(cfg))
+        fx_ = loadcfg(cfg, optional=(cfg == 'nostd'))
+        if fx_ is None:
+            continue
+        cx = Ctx(fx_)
         si, ri, pi = shared_fields(cx)
         if None in (si, ri, pi):
             run.fail('fork.shared-state', SHARED, cfg, 'ForkShared { signal, ring_buffer, pending } not found')
